@@ -514,6 +514,13 @@ def _strategy_base():
         def on_close_position(self, order):
             self._log('on_close_position', getattr(order, '_vf_oid', -1))
 
+        def on_route_open_position(self, strategy):
+            # reaction to ANOTHER route's fill: (re)declare own exits
+            d = self.spec.get('on_route_open')
+            if d and self.position.is_open:
+                self._log('on_route_open_position')
+                self._apply_exits(d, self.position.entry_price, 'on_route_open_position')
+
         def on_cancel(self):
             self._log('on_cancel')
 
